@@ -2410,6 +2410,10 @@ class TupleParser:
           cimtype (str): CIM data type name (e.g. 'datetime') except
             'reference', or None (in which case a numeric value is assumed).
         """
+        if data is None:
+            # NULL array entry (VALUE.NULL)
+            return None
+
         if cimtype == 'string':
             return data
 
